@@ -129,6 +129,8 @@ def crash_save(binp, rng, tier, chk):
             new = "steps:\n  - name: new\n    command: echo new\n" + "#" * size + "\n"
             target = os.path.join(dags, "v.yaml")
             newf = os.path.join(work, "new.yaml"); open(newf, "w").write(new)
+            nxt = "steps:\n  - name: next\n    command: echo next\n"      # shorter than every `new`
+            nextf = os.path.join(work, "next.yaml"); open(nextf, "w").write(nxt)
             def reset():
                 for f in os.listdir(dags):
                     os.remove(os.path.join(dags, f))
@@ -163,6 +165,20 @@ def crash_save(binp, rng, tier, chk):
                                   {"crash_save": {"size": size, "syscall": nm, "k": k}})
                 if acked and got != new:
                     chk.violation("C18:acknowledged-save-lost", "save acknowledged but file holds something else (kill before %s#%d)" % (nm, k),
+                                  {"crash_save": {"size": size, "syscall": nm, "k": k}})
+                # the next save of the same DAG, on whatever the killed one left behind (temp files included)
+                p2 = subprocess.run([binp, "execsave", dags, "v", nextf], env=dict(os.environ, GOMAXPROCS="1"),
+                                    stdout=subprocess.PIPE, stderr=subprocess.PIPE, timeout=60)
+                chk.evaluations += 1
+                got2 = open(target).read() if os.path.exists(target) else None
+                if b"ack" in p2.stdout and got2 != nxt:
+                    what = "missing" if got2 is None else "%d bytes, %s" % (len(got2), "the new text followed by stale bytes" if got2.startswith(nxt) else "something else")
+                    chk.violation("C18:save-after-killed-save-not-complete",
+                                  "a save was killed before %s#%d (text %d bytes); the next, acknowledged save of %d bytes left the definition file %s" % (nm, k, len(new), len(nxt), what),
+                                  {"crash_save": {"size": size, "syscall": nm, "k": k}})
+                elif b"ack" not in p2.stdout and got2 not in (got, nxt):
+                    chk.violation("C18:save-not-atomic:refused-save-after-killed-save-changed-definition",
+                                  "a save was killed before %s#%d; the next save was not acknowledged yet changed the definition" % (nm, k),
                                   {"crash_save": {"size": size, "syscall": nm, "k": k}})
     finally:
         shutil.rmtree(work, ignore_errors=True)
